@@ -675,7 +675,9 @@ func (vc *VC) globalPtr(g *ssa.Global) Ptr {
 
 func (vc *VC) loadGlobal(st *State, g *ssa.Global) Val {
 	t := g.Type().(*types.Pointer).Elem()
-	if vc.eng.immutableGlobal(g) {
+	// inside a package initialiser the globals it initialises are ordinary mutable memory (that is where they get their value)
+	inInit := vc.fn != nil && (vc.fn.Name() == "init" || strings.HasPrefix(vc.fn.Name(), "init#"))
+	if vc.eng.immutableGlobal(g) && !inInit {
 		// immutable: one uninterpreted constant per leaf
 		var ts []string
 		for _, l := range leaves(t) {
@@ -1345,10 +1347,15 @@ func (vc *VC) computeFootprint(e *Env, sf *SpecFunc, sig *types.Signature, args 
 	}()
 	vc.dry--
 	var foot []string
+	// $region is read (i) by the guard of a quantifier over pointers: then the value depends on it; (ii) by typedRefFact,
+	// which only ADDS a fact that holds by Go type safety about a loaded reference: then the value does not depend on it,
+	// and keeping it in the footprint would make f(region', ...) and f(region, ...) unrelated after every callee allocation.
+	quantRegion := vc.heapReads["$region!quant"]
 	for h := range vc.heapReads {
-		if h != "$alloc" {
-			foot = append(foot, h)
+		if h == "$alloc" || h == "$region!quant" || (h == "$region" && !quantRegion) {
+			continue
 		}
+		foot = append(foot, h)
 	}
 	sort.Strings(foot)
 	// keep declarations made during the dry evaluation (harmless), but restore tracking
@@ -1357,6 +1364,9 @@ func (vc *VC) computeFootprint(e *Env, sf *SpecFunc, sig *types.Signature, args 
 	if saveTrack {
 		for _, h := range foot {
 			saveReads[h] = true
+		}
+		if quantRegion {
+			saveReads["$region!quant"] = true
 		}
 	}
 	return foot
